@@ -1,5 +1,5 @@
 """C08 extending needs a matching calendar chain and preserves the signature."""
-import random, copy
+import os, random, copy
 from vlib import core, kexec, pool, net, refksi as R, refserver as S, gen
 
 LEVEL = 'exploration'
@@ -366,6 +366,64 @@ def run_worker(job, r):
     pool.check_exit(None, r, sess.ex)
 
 
+def file_worker(job, r):
+    """long run through ONE context with a file:// extender (the transport that reads its replies from a file): several hundred extensions in a
+    row, request ids 1, 2, ... 300+ (they pass 255, where the SDK's small-integer pool ends); every authentic reply for the request's own id has to
+    be accepted and give the reference extension, now and then a reply for another id comes first and has to be refused"""
+    _, exe, env, work, seed, n = job
+    rng = random.Random(seed)
+    cal = S.Calendar(b'c08f-%d' % seed)
+    sess = net.Session(exe, env, work, None)
+    cmd = sess.cmd
+    cmd('ctx 0')
+    path = os.path.join(work, 'ext-reply-%d.tlv' % seed)
+    cmd('set_ext 0 file://%s anon anon' % path)
+    t = 1400000000 + seed % 1000
+    src = gen.gen_signature(rng, time=t, with_cal=True, anchor='auth', rfc=False, calendar=cal, pub_time=t + 100, nchains=2)
+    raw = src.enc()
+    q = cmd('sigparse 0 0 empty ' + raw.hex())
+    if q.rc != 0:
+        r.error = 'cannot parse the source signature'
+        return
+    # the file transport keeps its file open and reads one reply after the other from it: all replies are written up front
+    plan = []
+    for i in range(n):
+        target = t + 1000 + i * 7
+        chain = cal.chain(t, target, src.root)
+        wrong = (i % 50 == 49)
+        plan.append((target, chain, wrong, S.ext_response(dict(req_id=i + 1 + (3 if wrong else 0), aggr_time=t, pub_time=target), chain, b'anon', last_time=target)))
+    with open(path, 'wb') as fh:
+        fh.write(b''.join(p[3] for p in plan))
+    rid = 0
+    for target, chain, wrong, body in plan:
+        rid += 1
+        q = cmd('extend 0 0 1 to=%d' % target)
+        r.observe(('file-extender', rid > 255, wrong, q.rc == 0))
+        r.count('file_extender_requests')
+        if wrong:
+            if q.rc == 0:
+                r.viol('extend:file:reply-for-another-id:success', 'request %d through the file:// extender: a reply carrying id %d was accepted' % (rid, rid + 3), 'request-number=%d' % rid)
+            continue
+        exp = R.Sig(copy.deepcopy(src.chains), cal=chain, rfc=src.rfc)
+        if q.rc != 0:
+            r.viol('extend:file:honest-reply-rejected:%s' % ('id-above-255' if rid > 255 else 'id-up-to-255'), 'request number %d on one context through the file:// extender: the authentic reply for this very request was refused rc=%#x %s' % (rid, q.rc, q.get('msg', '')), 'request-number=%d' % rid)
+        elif q.get('sig') != exp.enc().hex():
+            r.viol('extend:file:result-differs-from-reference', 'request number %d: the extended signature is not the reference extension' % rid, 'request-number=%d' % rid)
+        else:
+            r.count('file_extender_honest_accepted')
+        a = cmd('sigser 0')
+        if a.get('hex') != raw.hex():
+            r.viol('extend:file:source-modified', 'serialization of the source signature changed after request %d' % rid, '')
+            break
+    pool.check_exit(None, r, sess.ex)
+
+
+def dispatch(job, r):
+    if job[0] == 'file':
+        return file_worker(job, r)
+    return run_worker(job, r)
+
+
 def run(ctx):
     exe = kexec.build(ctx)
     n = 200 if ctx.tier == 'quick' else 2500
@@ -373,9 +431,9 @@ def run(ctx):
                 '{head, later, equal, earlier, publication record, publication record with wrong hash} x extender behaviours (2 honest, %d deviations) x transports '
                 '{http, tcp, async tcp, async http} x PDU versions x HMAC algorithms; distinct = (transport, version, behaviour, target, anchor, outcome)' % len(DEVIATIONS))
     ctx.assumptions = ['simulated transports', 'reference calendar vlib/refserver.py Calendar (right links depend only on history)', 'refksi evaluator']
-    pool.run(ctx, run_worker, [(exe, ctx.env(), ctx.work, ctx.seed * 1000 + i, n) for i in range(32)])
+    pool.run(ctx, dispatch, [(exe, ctx.env(), ctx.work, ctx.seed * 1000 + i, n) for i in range(32)] + [('file', exe, ctx.env(), ctx.work, ctx.seed * 1000 + 900 + i, 320 if ctx.tier == 'quick' else 1500) for i in range(2)])
     c = ctx.counters
     if not ctx.violations and not ctx.known_printed:
-        ctx.require(c.get('extended_signatures_checked', 0) >= 100, 'honest extensions checked')
+        ctx.require(c.get('extended_signatures_checked', 0) >= 100 and c.get('file_extender_honest_accepted', 0) >= 500, 'honest extensions checked')
         miss = [d for d in DEVIATIONS if not c.get('outcome_%s_error' % d)]
         ctx.require(not miss, 'every deviation exercised: missing %s' % miss)
